@@ -99,4 +99,4 @@ Definition tstep (t : tree) (o : op) : tree :=
   | _ => t
   end.
 
-Definition op_ok (o : op) : bool := match o with OSet _ v => nonil v | _ => true end.
+Definition op_ok (o : op) : bool := match o with OSet _ v => settable v | _ => true end.
